@@ -298,12 +298,12 @@ func (db *DB) Delete(key []byte) error {
 func (db *DB) ListKeys() [][]byte {
 	iterator := db.index.Iterator(false)
 	defer iterator.Close()
-	keys := make([][]byte, db.index.Size())
-	var idx int
+	// 迭代器遍历的是创建时刻的快照, 而此处查询的是索引的实时大小,
+	// 二者可能因并发写入而不一致, 因此仅作为容量提示, 不能作为下标上界
+	keys := make([][]byte, 0, db.index.Size())
 	// 直接通过迭代器遍历获取所有 key
 	for iterator.Rewind(); iterator.Valid(); iterator.Next() {
-		keys[idx] = iterator.Key()
-		idx++
+		keys = append(keys, iterator.Key())
 	}
 	return keys
 }
